@@ -21,6 +21,8 @@ type evalCase struct {
 	Lazy     bool       `json:"eval_lazy"`
 	AdvPiece bool       `json:"eval_adv_piece"`
 	Mobility bool       `json:"eval_mobility"`
+	Attacks  bool       `json:"eval_attacks"`
+	KingEval bool       `json:"eval_king"`
 }
 
 func propC15(c evalCase, o *hx.Obs) *hx.Failure {
@@ -29,7 +31,12 @@ func propC15(c evalCase, o *hx.Obs) *hx.Failure {
 	config.Settings.Eval.UseLazyEval = c.Lazy
 	config.Settings.Eval.UseAdvancedPieceEval = c.AdvPiece
 	config.Settings.Eval.UseMobility = c.Mobility
+	config.Settings.Eval.UseAttacksInEval = c.Attacks
+	config.Settings.Eval.UseKingEval = c.KingEval
 	cfg := fmt.Sprintf("lazy=%v advPiece=%v mobility=%v", c.Lazy, c.AdvPiece, c.Mobility)
+	if c.Attacks || c.KingEval {
+		cfg += fmt.Sprintf(" attacks=%v kingEval=%v", c.Attacks, c.KingEval)
+	}
 
 	poss, moves := c.Play.Replay()
 	ep := hx.NewPos(c.Play.Start)
@@ -117,25 +124,36 @@ func propC15(c evalCase, o *hx.Obs) *hx.Failure {
 
 var recC15 *hx.Rec
 
+// genEvalCfg draws the evaluation switches: the three exposed over UCI and the two that only the configuration
+// file can set (attack-based terms, king safety); half of the cases leave the latter two at their default (off).
+func genEvalCfg(t *rapid.T, play hx.Playout) evalCase {
+	c := evalCase{Play: play, Lazy: rapid.Bool().Draw(t, "lazy"), AdvPiece: rapid.Bool().Draw(t, "adv"), Mobility: rapid.IntRange(0, 2).Draw(t, "mob") == 0}
+	if rapid.Bool().Draw(t, "file-only-switches") {
+		c.Attacks = rapid.IntRange(0, 3).Draw(t, "attacks") != 0
+		c.KingEval = rapid.IntRange(0, 3).Draw(t, "king") != 0
+	}
+	return c
+}
+
 func TestC15(t *testing.T) {
 	r := hx.NewRec(t, "C15")
 	defer r.Finish()
 	recC15 = r
-	r.Assume("evaluation settings: default plus the options exposed over UCI (Eval_Lazy, Eval_AdvPiece, Eval_Mobility)")
+	r.Assume("evaluation settings: every boolean switch of the evaluation configuration that the evaluator reads (UCI options Eval_Lazy, Eval_AdvPiece, Eval_Mobility; configuration-file switches UseAttacksInEval, UseKingEval); weights at their defaults")
 	r.Assume("mirror = ranks flipped, colours, castling rights, side to move and ep square swapped (refchess.Mirror)")
 
 	gen := func(maxPlies int) func(t *rapid.T) evalCase {
 		return func(t *rapid.T) evalCase {
-			return evalCase{Play: hx.GenPlayout(t, maxPlies, 1), Lazy: rapid.Bool().Draw(t, "lazy"), AdvPiece: rapid.Bool().Draw(t, "adv"), Mobility: rapid.IntRange(0, 3).Draw(t, "mob") == 0}
+			return genEvalCfg(t, hx.GenPlayout(t, maxPlies, 1))
 		}
 	}
 	hx.Sub(r, "playout", r.N(2500, 8000), gen(r.N(40, 100)), propC15)
 	hx.Sub(r, "positions", r.N(25000, 100000), func(t *rapid.T) evalCase {
 		p := hx.GenPosition(t)
-		return evalCase{Play: hx.Playout{Start: p.FEN()}, Lazy: rapid.Bool().Draw(t, "lazy"), AdvPiece: rapid.Bool().Draw(t, "adv")}
+		return genEvalCfg(t, hx.Playout{Start: p.FEN()})
 	}, propC15)
 	hx.Sub(r, "material", r.N(10000, 50000), func(t *rapid.T) evalCase {
 		p := genMaterial(t)
-		return evalCase{Play: hx.Playout{Start: p.FEN()}, Lazy: rapid.Bool().Draw(t, "lazy"), AdvPiece: rapid.Bool().Draw(t, "adv")}
+		return genEvalCfg(t, hx.Playout{Start: p.FEN()})
 	}, propC15)
 }
